@@ -274,6 +274,7 @@ def cases(tier):
         if name == "Circle[t]" or (name == "Interval[t]" and not quick):
             cs.append(sampler_case("adaptive_threshold", name, mk, info, 2, 2, False))
             cs.append(sampler_case("adaptive_random", name, mk, info, 2, 2, False))
+            cs.append(sampler_case("gauss", name, mk, info, 2, 2, False))  # every row's points in the set of THAT row
         if simple:
             cs.append(sampler_case("gauss", name, mk, info, 2, 0, False))
             cs.append(sampler_case("lhs", name, mk, info, 2, 0, False))
